@@ -1,4 +1,10 @@
+-- root of the ProphyModel library: everything that `lake build` must check
 import ProphyModel.Basic
 import ProphyModel.Schema
 import ProphyModel.Spec
 import ProphyModel.Py
+import ProphyModel.Properties.Tables
+import ProphyModel.Properties.DocExamples
+import ProphyModel.Properties.C01
+import ProphyModel.Properties.C02
+import ProphyModel.Properties.C19
